@@ -71,14 +71,22 @@ def gen_fraction(rng, occ, virt, max_brackets=3):
         den *= b ** rng.choice([1, 1, 1, 2])
     num = S.One
     r = rng.random()
-    if r < 0.35 and den is not S.One:
+    if r < 0.45 and den is not S.One:
         # numerator = +- content of one (or the sum of two) of the brackets: cancellable
         bases = [(b.args[0] if isinstance(b, Pow) else b) for b in
                  (den.args if isinstance(den, Mul) else (den,))]
         bases = [b for b in bases if isinstance(b, Add)]
-        if bases:
+        if bases and rng.random() < 0.5:
             num = rng.choice([1, -1, 2]) * Add(*rng.sample(bases, min(len(bases), rng.choice([1, 1, 2]))))
-    elif r < 0.65:
+        elif bases:
+            # weighted combination of the brackets (every bracket cancels with its own
+            # coefficient), optionally with a remainder that cancels nothing
+            coefs = rng.sample([1, 2, 3, -2, -3, Rational(1, 2), Rational(3, 2), 4], len(bases))
+            num = Add(*[c * b for c, b in zip(coefs, bases)])
+            if rng.random() < 0.3 and occ + virt:
+                s0 = rng.choice(occ + virt)
+                num += rng.choice([1, -1, 2]) * _e(s0)
+    elif r < 0.7:
         terms = []
         for s in rng.sample(occ + virt, min(len(occ + virt), rng.randint(1, 4))):
             c = rng.choice([1, 1, 2, Rational(1, 2)])
